@@ -4,5 +4,6 @@ import MiniconfVerif.Props.C17
 #print axioms MiniconfVerif.C17.foreign_inert
 #print axioms MiniconfVerif.C17.others_untouched
 #print axioms MiniconfVerif.C17.do_post
+#print axioms MiniconfVerif.C17.source_do_tail_is_model
 #print axioms MiniconfVerif.C17.normalize_spec
 #print axioms MiniconfVerif.C17.source_dispatch_is_model
